@@ -33,7 +33,7 @@ CHECKS = {
              'added so far is readable in order, that the old network embeds position-wise, that each pre-existing position '
              'gained exactly the score on one arc, that normalised positions sum to 1 and that the path enumeration lists '
              'every arc combination once in non-increasing order summing to 1.  Bound: 1..3 hypotheses of length <= 3 '
-             '(quick) / <= 4 (thorough); nothing is claimed beyond it.',
+             '(quick) / <= 4 (thorough), bags from produce_cn_from_boh incl. bags that begin with the empty transcript; nothing is claimed beyond it.',
         note='Trusted: z3, the symnp facade (validated by witness replay on the real module), characters as integer codes, '
              'math.exp as an uninterpreted positive increasing function.  One recorded known finding (empty hypothesis added '
              'to an empty network leaves no trace).',
@@ -45,7 +45,7 @@ CHECKS = {
              'path is a valid CTC alignment of the labels, that no valid competitor alignment (T universally quantified '
              'state variables) is cheaper, that ValueError is raised iff no finite-cost alignment exists or the blank is '
              'among the labels, and that align_text positions are strictly increasing, lie in the frames of their character '
-             'and are the most confident of them.  Bound: T<=4, L<=2, C=3 quick; T<=5, L<=3 and C=4 (T<=3) thorough.',
+             'and are the most confident of them.  Bound: T<=4, L<=2 and T=L=3, C=3 quick; T<=5, L<=3 and C=4 (T<=3) thorough.',
         note='Trusted: z3 (linear real arithmetic), the symnp facade (validated by witness replay on real numpy/numba), '
              'numba jit = identity on the same source; reals stand for floats (no nan).',
         design='4/C05'),
@@ -59,7 +59,7 @@ CHECKS = {
              'z3 decides on every path: every confidence in [0,1]; posteriors positive and summing to 1; bag confidence = '
              'posterior of an arg-max total; invariance under per-frame shifts (the scaled run yields syntactically the same '
              'quotients); one-hot posteriors give 1; the confident-line test is monotone in its threshold.  Bound: F <= 3 '
-             'frames x 3 symbols, labels <= 2, bags <= 3 (quick); F <= 4, labels <= 3, bags <= 4, all prune patterns for F <= 3 (thorough).',
+             'frames x 3 symbols, labels <= 2, bags <= 3, each bag queried again after its LM weight was changed (quick); F <= 4, labels <= 3, bags <= 4, all prune patterns for F <= 3 (thorough).',
         note='Trusted: z3; the symnp/LogP facade (witness replay on the real numpy/scipy code); exact reals for floats; exp of '
              'LM-weighted totals is an uninterpreted positive increasing function; alignment positions are arbitrary strictly '
              'increasing frames (what align_text returns is C05), plus one end-to-end run with the real align_text at F = 2.',
@@ -107,11 +107,11 @@ CHECKS = {
     'C03': dict(
         text='Same engine as C02 with a language model attached: the LM is a stub with the LMWrapper interface whose state is the '
              'prefix and whose score for (prefix, character) and end-of-line is a free real variable (any history-dependent LM); '
-             'lm_scale in [0,3] and the insertion bonus are symbolic (scale * score is a named product with a lazy definition).  '
+             'lm_scale in (0,3] and the insertion bonus are symbolic (scale * score is a named product with a lazy definition), scale 0 is a family of tasks with a concrete 0.  '
              'On every path (every admissible top-k and arg-max choice): the LM score of each returned hypothesis equals the sum of '
              'the model\'s own per-character scores along the transcript plus bonus per character plus end-of-line score; the '
              'returned LM state is that of a hypothesis maximising visual + scale x LM; with scale 0 the ranking terms contain no LM '
-             'variable.  BagOfHypotheses.best_hyp is an arg-max of total_scores for symbolic scores and weight.  Bound: T <= 2 '
+             'variable; the bag archives the decoder\'s scale; a supplied start state is not modified.  BagOfHypotheses.best_hyp is an arg-max of total_scores for symbolic scores and weight.  Bound: T <= 2 '
              '(3 for k = 2), C = 3, k <= 3 (quick); T = 3, k <= 3 and C = 4 (thorough).',
         note='Trusted: as C02; exp(scale * lm) in the ranking is an uninterpreted positive increasing function (the bookkeeping claims '
              'hold for any selection, so this cannot cause a false alarm); the torch LMWrapper is outside.',
@@ -124,7 +124,7 @@ CHECKS = {
              'not in the file; missing components are refused in the default mode; legacy files load; dense reconstruction '
              '(get_dense_logits / get_full_logprobs / prepare_dense_logits) returns stored weights unchanged, the floor for pruned '
              'entries, rows summing to 1 and keeps within-frame ratios (LogP domain, every prune pattern of a 2 x 3 matrix).  '
-             'Bound: 0..2 lines per layout (quick), 0..3 (thorough).',
+             'After other logits are assigned to the same line object the reconstruction follows them.  Bound: 0..2 lines per layout (quick), 0..3 (thorough).',
         note='Trusted: z3; pickle = deep copy and open() = in-memory file (stubs); scipy.sparse contract (entries != 0 are stored). '
              'Known finding: ids equal to the reserved keys line_characters / logit_coords.',
         design='4/C09'),
@@ -160,7 +160,7 @@ CHECKS = {
              'was computed from) of an uninterrupted run; a page whose requested outputs were all present at the start of a run is '
              'not processed in that run; no run ends with an exception.  Configurations: subsets of {xml, render, logits, alto, '
              'lines}, id sets {p1,p2}, {a.b,a}, {x.xml.y,x}.  Bound: 1 crash, 10 kind subsets (quick); 3 crashes, all 31 subsets, '
-             'three pages, more id sets (thorough).',
+             'three pages, more id sets (thorough); one id set in both tiers has ids and image file names that sort differently.',
         note='Trusted: z3 (integer arithmetic only); writes are atomic and ordered; the page parser is a deterministic stand-in (C08); '
              'replay runs the real main() on a real temporary directory with real os / re.  Known finding: only line crops requested.',
         design='4/C17'),
@@ -173,7 +173,7 @@ CHECKS = {
              'step budget (a budget hit would be reported as possible non-termination), the returned regions are exactly the input '
              'objects, each once, with polygon and text untouched.  Division by a zero extent follows numpy scalar semantics '
              '(inf / nan, no exception); Python-float values are tracked so that a change to Python floats raises as it would.  '
-             'Bound: n <= 3 (quick), n = 4 and a concave variant (thorough).',
+             'Pages with slanted lines: the de-skew rotation is an abstract invertible map (counterexamples of these tasks are replayed on the page made of the de-skewed boxes).  Bound: n <= 3 (quick), n = 4 and a concave variant (thorough).',
         note='Trusted: z3 (linear real arithmetic), DBSCAN model (components of |a-b| <= eps, ValueError on empty input and eps <= 0), '
              'de-skew angle 0 (no or horizontal lines); non-zero de-skew runs through shapely / cv2 and is outside.',
         design='4/C12'),
@@ -186,7 +186,7 @@ CHECKS = {
              'is wider), the logits are that row\'s, the frame window starts at the first cell of the image and ends with the last '
              'cell lying entirely inside it, tight-crop returns that window, no-logits returns none.  Sparse storage: on one frame of '
              'log-weights an entry is kept unchanged iff its posterior is >= 1e-4 (softmax through the quotient abstraction).  '
-             'Bound: 0..3 lines (quick), 0..4 (thorough).',
+             'An empty logit matrix passes through the sparsification.  Bound: 0..3 lines (quick), 0..4 (thorough; 4 only in the dense flavour).',
         note='Trusted: z3 (linear integer arithmetic with floor division); the stub network (locality of frames is the property\'s own '
              'hypothesis); witness replay on the real process_lines with a recording network.',
         design='4/C07'),
@@ -198,7 +198,7 @@ CHECKS = {
              'symbolic lengths / other geometry, outline intersection polygon / 2-3 pieces of symbolic areas / other).  On every path: a '
              'line is placed only if it touches the region and the clipped kinds are line / polygon, it carries the longest baseline '
              'piece (> 2 px) and the largest outline piece, a baseline wholly inside the region and longer than 2 px is placed unchanged, '
-             'a pair dropped by the bounding-box pre-filter cannot be an inside line, all line ids are distinct; LayoutExtractor: ids '
+             'a pair dropped by the bounding-box pre-filter cannot be an inside line, touching the convex hull of an invalid region does not count as touching the region, all line ids are distinct; LayoutExtractor: ids '
              'distinct for all 16 option combinations with a stub detector returning 0..2 lines per orientation.  Bound: 1x1, 2x1, 1x2 '
              'regions x lines (quick); 2x2, 3x1, 1x3 (thorough).',
         note='Trusted: z3 (linear real arithmetic); GEOS/shapely itself is outside (only the repo\'s use of its answers is checked); the '
@@ -225,7 +225,7 @@ CHECKS = {
              'the minimum; the String contents are transcription.split() (order-converted on Arabic lines) on the aligned, fallback, '
              'absent-logits and unknown-window branches; every geometry attribute is an integer; WC in [0,1]; re-import gives the same '
              'words; print space = bounding box of the blocks and the margins cover the rest (symbolic block boxes); the order '
-             'conversion is a permutation and an involution.  Bound: transcriptions <= 3 characters, order conversion <= 4 (quick); '
+             'conversion is a permutation and an involution.  Further task families: an Arabic line precedes the line in the same block (script handling is per line); the real get_line_confidence instead of its stub.  Bound: transcriptions <= 3 characters, order conversion <= 4 (quick); '
              '<= 4 / <= 6 (thorough).',
         note='Trusted: z3; one representative per character class (the code distinguishes characters only by these classes); align_text, '
              'get_line_confidence and the line cropper are stubs with symbolic results (C05 / C16 / C10); the lxml stub (escaping outside); '
@@ -252,9 +252,9 @@ CHECKS = {
              'step, line, depth, head count, batch size and history (fresh model; a previous batch of the same size, of a different '
              'size, or one that ran longer) the cached result, the result recomputed from scratch and the row of the masked full '
              'forward pass are the same term (EUF, decided syntactically or by z3), contain no stale or previous-batch constant and no '
-             'input of another line of the batch; postprocess_decoded drops everything from the first boundary symbol on and every '
-             'ignore symbol.  Bound: <= 2 layers, <= 2 heads, batch <= 2, 3 steps (quick); 3 / 3 / 3 / 4 (thorough).  Not claimed: '
-             'bit-identical floats, the encoder, the greedy loop of transcribe_batch (its termination is the explicit length cap).',
+             'input of another line of the batch (indexing yields views, += writes through: aliasing is modelled); postprocess_decoded drops everything from the first boundary symbol on and every '
+             'ignore symbol; transcribe_batch\'s greedy loop over an abstract network (arg-max symbol = uninterpreted function of the line and the symbols fed so far) gives a line inside a batch the transcription it gets alone.  Bound: <= 2 layers, <= 2 heads, batch <= 2, 3 steps, greedy loop 2 lines x cap 2 (quick); 3 / 3 / 3 / 4, greedy (2,3),(3,2) (thorough).  Not claimed: '
+             'bit-identical floats, the encoder, the logits returned by transcribe_batch.',
         note='Trusted: z3 EUF; the row-level reading of torch (operations act on whole rows); the reference nn.MultiheadAttention / masked '
              'post-norm decoder layer written from the PyTorch documentation; replay runs a random-weight real Decoder in torch and compares '
              'cached, recomputed and masked-forward outputs numerically.',
